@@ -27,6 +27,11 @@ def main(tier):
     num = 120 if quick else 3000
     behs, sim = layerb.generate_behaviours("PyDRexC17", "PyDRexC17Sim", num, 14, SEED + 17)
     chk.add_tlc("PyDRexC17(simulate)", sim, f"{num} random behaviours, 2 archives, 3 postfixes, depth 12")
+    enum, eres = layerb.enumerate_behaviours("PyDRexC17", "PyDRexC17Enum" if quick else "PyDRexC17Enum_thorough", workers=8)
+    chk.add_tlc("PyDRexC17Enum", eres, "every order of three postfix saves (postfixes '1', '10', 'q': one a string prefix of another; a mineral with all-zero ordinals) followed by one recovery through either loader - all behaviours emitted and replayed")
+    if len(enum) < 70:
+        raise MachineryError(f"only {len(enum)} enumerated persistence behaviours")
+    behs = behs + enum
     events, comp = layerb.run_behaviours(chk, "C17", behs, fcheck=False)
     acts = {}
     for e in events:
